@@ -64,7 +64,9 @@ func verifIsBuiltinFrame(f string) bool {
 func VerifBuiltinSnapshot() *VerifSnap {
 	s := &VerifSnap{}
 	for k, v := range TFrame {
-		if verifIsBuiltinFrame(k.frame) && k.targetClass != "Sym" && k.targetVariable == "" {
+		// every entry the configuration loader created: methods and their parameter values, of
+		// every configured frame (at snapshot time the table holds nothing else)
+		if k.targetClass != "Sym" {
 			s.keys = append(s.keys, k)
 			c := v.DeepCopy()
 			c.Overloads = append([]T(nil), v.Overloads...)
@@ -166,6 +168,9 @@ func VerifBuiltinDiff(s *VerifSnap) string {
 	}
 	for i, k := range s.keys {
 		name := k.targetClass + "." + k.targetMethod
+		if k.targetVariable != "" {
+			name += "/parameter"
+		}
 		cur, ok := TFrame[k]
 		if !ok {
 			note(name + "/removed")
